@@ -10,6 +10,8 @@ LEVEL = 'model_checking'
 
 
 def rowfunc(row):
+    if row.get('boom'):
+        raise ValueError('row function fails for row %d' % row['i'])
     row['n'] += 1
 
 
@@ -55,6 +57,9 @@ def execute(cfg, prefix, on_point=None, line=False, seam='fork'):
 
         def body(s):
             rows = [{'i': k, 'n': 0} for k in range(R)]
+            for k in range(R):
+                if cfg.get('boom', 0) >> k & 1:
+                    rows[k]['boom'] = True
             out = []
             if seam == 'fork':
                 for r in m.fork(upstream(rows), rowfunc, N, predicate):
@@ -80,7 +85,15 @@ def rowfunc2(row):
 
 def expected(cfg, seam='fork'):
     per = 11 if seam == 'chain2' else 1
-    return [{'i': k, 'n': per if cfg['mask'] >> k & 1 else 0} for k in range(cfg['R'])]
+    out = []
+    for k in range(cfg['R']):
+        r = {'i': k, 'n': per if cfg['mask'] >> k & 1 else 0}
+        if cfg.get('boom', 0) >> k & 1:
+            r['boom'] = True
+            if cfg['mask'] >> k & 1:
+                r['n'] = 0          # the function raised before touching the row: delivered once, unprocessed
+        out.append(r)
+    return out
 
 
 def judge(cfg, s, result, exc, deadlock, seam='fork'):
@@ -312,6 +325,8 @@ def tasks(tier):
         out.append({'cfg': {'N': 2, 'R': 2, 'mask': 2}, 'mode': 'stateful', 'seam': 'flow'})
         for N_, R_, mask_ in ((1, 2, 3), (1, 3, 5), (2, 2, 3), (2, 3, 6)):
             out.append({'cfg': {'N': N_, 'R': R_, 'mask': mask_, 'slow_upstream': True}, 'mode': 'stateful'})
+        for N_, R_, mask_, boom_ in ((1, 2, 3, 1), (1, 3, 7, 2), (2, 2, 3, 3), (2, 3, 5, 4)):
+            out.append({'cfg': {'N': N_, 'R': R_, 'mask': mask_, 'boom': boom_}, 'mode': 'stateful'})
         out.append({'cfg': {'N': 1, 'R': 1, 'mask': 1}, 'mode': 'stateful', 'seam': 'chain2'})
         out.append({'cfg': {'N': 1, 'R': 2, 'mask': 3}, 'mode': 'stateful', 'seam': 'chain2'})
         out.append({'cfg': {'N': 1, 'R': 1, 'mask': 1}, 'mode': 'line-dev', 'bound': 1, 'seam': 'chain2'})
